@@ -350,6 +350,11 @@ class DataflowAnalysisDetacher(Transformer):
         o._update(_live_symbols=None, _defines_symbols=None, _uses_symbols=None)
         return super().visit_Node(o, **kwargs)
 
+    def visit_ScopedNode(self, o, **kwargs):
+        # ScopedNode classes (e.g. Associate) are dispatched here rather than to visit_Node
+        o._update(_live_symbols=None, _defines_symbols=None, _uses_symbols=None)
+        return super().visit_ScopedNode(o, **kwargs)
+
 
 class DataflowAnalysis(AbstractDataflowAnalysis):
     r"""
